@@ -23,11 +23,16 @@ type clauseEnv struct {
 	lookup func(name string) (string, bool) // Go variable in scope -> term
 	heap   map[string]string
 	heap0  map[string]string
+	top, top0, topPost string
 }
 
 // clause translates a contract clause into an SMT term over the current symbolic state.
 func (e *Exec) clause(x *SX, st *State, names map[string]string, pos token.Pos, info *types.Info, mode clauseMode) string {
-	ce := &clauseEnv{e: e, st: st, names: names, mode: mode, heap: st.heap, heap0: st.heap0}
+	ce := &clauseEnv{e: e, st: st, names: names, mode: mode, heap: st.heap, heap0: st.heap0, top: st.top, top0: st.top0}
+	if mode == clausePost {
+		// in ensures, allocTop is the boundary at entry (everything below it existed before the call)
+		ce.top, ce.topPost = st.top0, st.top
+	}
 	ce.lookup = func(name string) (string, bool) {
 		return e.lookupVar(st, name, pos)
 	}
@@ -82,6 +87,18 @@ func (ce *clauseEnv) tr(x *SX, bound map[string]bool, old bool) *SX {
 		a := x.Atom
 		if bound[a] {
 			return x
+		}
+		if a == "allocTop" {
+			if ce.top != "" {
+				if old {
+					return atom(ce.top0)
+				}
+				return atom(ce.top)
+			}
+			return x
+		}
+		if a == "allocTop@post" && ce.topPost != "" {
+			return atom(ce.topPost)
 		}
 		if strings.HasSuffix(a, "@pre") {
 			n := strings.TrimSuffix(a, "@pre")
@@ -221,7 +238,7 @@ func isGoIdent(a string) bool {
 // by the argument / result terms; field reads use the heap after the call, (old ...) the heap before it.
 func (e *Exec) calleeClause(x *SX, st *State, names map[string]string, heapBefore map[string]string) string {
 	ce := &clauseEnv{e: e, st: &State{pre: map[string]string{}, ghosts: map[string]string{}, heap: st.heap, heap0: heapBefore}, names: names,
-		mode: clauseEntry, heap: st.heap, heap0: heapBefore}
+		mode: clauseEntry, heap: st.heap, heap0: heapBefore, top: names["allocTop@before"], top0: names["allocTop@before"], topPost: names["allocTop@after"]}
 	// heapArr may need to register new arrays in the caller's state
 	ce.st = &State{pre: map[string]string{}, ghosts: map[string]string{}, heap: st.heap, heap0: heapBefore}
 	return ce.tr(x, map[string]bool{}, false).String()
